@@ -139,10 +139,31 @@ ATTR_OF = {
 FIRST = {"method": "self", "classmethod": "cls", "wrapped_method": "self", "wrapped_classmethod": "cls"}
 
 
-def _method_elem(isig, kind, msig, level="own"):
-    return {"level": level, "desc": {"kind": "method", "params": params(isig), "sig": list(isig)},
-            "impl": {"kind": kind, "params": params(msig, FIRST.get(kind)), "sig": list(msig),
-                     "has_first": kind in FIRST}}
+def kwonly_suffix(src, sig, how):
+    """the parameter list [src] of signature [sig] with keyword-only parameters added: how = 1 one defaulted
+    (k8=None), 2 two defaulted.  A DEFAULTED keyword-only parameter changes neither the description fromFunction
+    gives (C18_description_ignores_kwonly_and_locals) nor which of the property's call shapes bind, so the judged
+    signature stays [sig]: the verdict must be the one for the signature without them."""
+    r, o, va, kw = sig
+    ps = [x.strip() for x in src.split(",") if x.strip()]
+    tail = ["**kw"] if kw else []
+    if kw:
+        ps = ps[:-1]
+    if not va:
+        ps.append("*")
+    ps += ["k8=None"] + (["k9=0"] if how == 2 else [])
+    return ", ".join(ps + tail)
+
+
+def _method_elem(isig, kind, msig, level="own", kwonly=(0, 0)):
+    el = {"level": level, "desc": {"kind": "method", "params": params(isig), "sig": list(isig)},
+          "impl": {"kind": kind, "params": params(msig, FIRST.get(kind)), "sig": list(msig),
+                   "has_first": kind in FIRST}}
+    if kwonly[0]:
+        el["desc"]["params"] = kwonly_suffix(el["desc"]["params"], isig, kwonly[0])
+    if kwonly[1]:
+        el["impl"]["params"] = kwonly_suffix(el["impl"]["params"], msig, kwonly[1])
+    return el
 
 
 SELFLESS = [(0, 0, 1, 0), (0, 0, 1, 1)]     # def m(*va) / def m(*va, **kw): the instance lands in *va
@@ -172,6 +193,18 @@ def _grid():
                               "tentative": False, "declare": 1,
                               "cand": "class" if how == "class" else "instance",
                               "elems": [_method_elem(isig, kind, msig)]})
+    # defaulted keyword-only parameters on either side change no verdict (round-6 seed C17/a6: fromFunction counting
+    # __kwdefaults__ among the positional defaults); every signature pair once with them on the implementation,
+    # every pair once with them on the interface
+    for i, isig in enumerate(ALL_SIGS):
+        for j, msig in enumerate(ALL_SIGS):
+            how = ("bound", "class", "func")[(i + j) % 3]
+            kind = "instfunc" if how == "func" else "method"
+            for tag, kwo in (("kwonly_impl", (0, 1 + (i + j) % 2)), ("kwonly_iface", (1 + (i + j) % 2, 0))):
+                cases.append({"stream": "grid", "how": how + "_" + tag, "vt": "c" if how == "class" else "o",
+                              "tentative": False, "declare": 1,
+                              "cand": "class" if how == "class" else "instance",
+                              "elems": [_method_elem(isig, kind, msig, kwonly=kwo)]})
     return cases
 
 
